@@ -105,10 +105,11 @@ struct WorkerOut {
     other_first: Option<(u64, Violation)>,
     samples: [Option<Sample>; 3],
     digest: u64,
+    known_hits: Vec<u64>,
 }
 
 #[allow(clippy::too_many_arguments)]
-fn worker(prop: &'static str, thorough: bool, seed: u64, first_run: u64, runs: u64, w: u64, threads: u64, min_fail: Arc<AtomicU64>, want_digest: bool) -> WorkerOut {
+fn worker(prop: &'static str, thorough: bool, seed: u64, first_run: u64, runs: u64, w: u64, threads: u64, min_fail: Arc<AtomicU64>, want_digest: bool, known: Arc<Vec<Known>>) -> WorkerOut {
     apimon::reset_thread_counters();
     let pi = prop_index(prop).unwrap();
     let mut preset = gen::preset_for(prop);
@@ -125,6 +126,7 @@ fn worker(prop: &'static str, thorough: bool, seed: u64, first_run: u64, runs: u
         other_first: None,
         samples: [None, None, None],
         digest: 0,
+        known_hits: vec![0; known.len()],
     };
     let mut i = first_run + w;
     let end = first_run + runs;
@@ -171,8 +173,17 @@ fn worker(prop: &'static str, thorough: bool, seed: u64, first_run: u64, runs: u
                 out.samples[2] = Some(Sample { run: i, trace: trace.clone(), cfg: cfg.to_json(), note: "non-trivial multi-channel run" });
             }
         }
+        let mut seen_known = vec![false; known.len()];
         for v in res.violations.iter() {
             if v.rule.property() == prop {
+                if let Some(k) = known.iter().position(|k| k.matches(prop, v)) {
+                    // a recorded finding: count the run once, keep searching
+                    if !seen_known[k] {
+                        seen_known[k] = true;
+                        out.known_hits[k] += 1;
+                    }
+                    continue;
+                }
                 if out.failure.is_none() {
                     out.failure = Some((i, trace.clone(), v.clone(), cfg.to_json()));
                     min_fail.fetch_min(i, Ordering::Relaxed);
@@ -202,8 +213,24 @@ fn count_distinct(mut v: Vec<u64>) -> usize {
     v.len()
 }
 
-fn load_known(path: Option<&str>) -> Vec<(String, String, String)> {
-    // entries: (property, rule id, shape)
+/// A genuine defect recorded in /verif/known_findings.json instead of being repaired. It is
+/// identified by property, rule id and substrings that must all occur in the violation detail
+/// (the detail names the specific input / history that fails), so that a different violation of
+/// the same property - another rule, or the same rule on other inputs - is still reported.
+#[derive(Clone)]
+pub struct Known {
+    property: String,
+    rule: String,
+    detail_contains: Vec<String>,
+    what: String,
+}
+impl Known {
+    fn matches(&self, prop: &str, v: &Violation) -> bool {
+        self.property == prop && self.rule == v.rule.id() && self.detail_contains.iter().all(|s| v.detail.contains(s.as_str()))
+    }
+}
+
+fn load_known(path: Option<&str>) -> Vec<Known> {
     let Some(p) = path else { return Vec::new() };
     let Ok(text) = std::fs::read_to_string(p) else { return Vec::new() };
     let j = json::parse(&text).unwrap_or_else(|e| die(&format!("{}: {}", p, e)));
@@ -211,7 +238,11 @@ fn load_known(path: Option<&str>) -> Vec<(String, String, String)> {
     if let Some(a) = j.get("findings").and_then(|x| x.as_arr()) {
         for f in a {
             let g = |k: &str| f.get(k).and_then(|x| x.as_str()).unwrap_or("").to_string();
-            out.push((g("property"), g("rule"), g("shape")));
+            let dc = f.get("detail_contains").and_then(|x| x.as_arr()).map(|a| a.iter().filter_map(|x| x.as_str().map(|s| s.to_string())).collect()).unwrap_or_default();
+            if g("property").is_empty() || g("rule").is_empty() {
+                die(&format!("{}: a finding needs 'property' and 'rule'", p));
+            }
+            out.push(Known { property: g("property"), rule: g("rule"), detail_contains: dc, what: g("what") });
         }
     }
     out
@@ -290,10 +321,17 @@ fn cmd_replay(a: &Args) -> i32 {
     let tj = j.get("trace").unwrap_or(&j);
     let trace = Trace::from_json(tj).unwrap_or_else(|e| die(&format!("{}: {}", path, e)));
     apimon::set_full_surface(prop == "C18");
+    let known = load_known(a.get("known"));
     let res = Exec::run(&trace);
     let mut hit = false;
     for v in res.violations.iter() {
         let mine = v.rule.property() == prop;
+        if mine {
+            if let Some(k) = known.iter().find(|k| k.matches(prop, v)) {
+                println!("KNOWN-FINDING: property={} rule={} {} (event {}: {})", prop, k.rule, k.what, v.idx, v.detail);
+                continue;
+            }
+        }
         println!("{} rule={} event={} {}", if mine { "violated:" } else { "also (other property):" }, v.rule.id(), v.idx, v.detail);
         if mine && !hit {
             hit = true;
@@ -368,14 +406,15 @@ fn cmd_run(a: &Args) -> i32 {
     let first_run = a.num("first-run").unwrap_or(0);
     let threads = a.num("threads").unwrap_or(16).max(1);
     let want_digest = a.get("digest").is_some();
-    let known = load_known(a.get("known"));
+    let known = Arc::new(load_known(a.get("known")));
     println!("midisim: property={} tier={} VERIF_SEED={} runs={} first_run={} threads={} profile={}", prop, tier, seed, runs, first_run, threads, profile);
 
     let min_fail = Arc::new(AtomicU64::new(u64::MAX));
     let handles: Vec<_> = (0..threads)
         .map(|w| {
             let mf = min_fail.clone();
-            std::thread::Builder::new().stack_size(16 << 20).spawn(move || worker(prop, thorough, seed, first_run, runs, w, threads, mf, want_digest)).unwrap()
+            let kn = known.clone();
+            std::thread::Builder::new().stack_size(16 << 20).spawn(move || worker(prop, thorough, seed, first_run, runs, w, threads, mf, want_digest, kn)).unwrap()
         })
         .collect();
     let mut outs = Vec::new();
@@ -393,7 +432,11 @@ fn cmd_run(a: &Args) -> i32 {
     let mut other_first: Option<(u64, Violation)> = None;
     let mut failure: Option<(u64, Trace, Violation, J)> = None;
     let mut samples: [Option<Sample>; 3] = [None, None, None];
+    let mut known_hits = vec![0u64; known.len()];
     for o in outs {
+        for (k, h) in o.known_hits.iter().enumerate() {
+            known_hits[k] += h;
+        }
         probes.add(&o.probes);
         hashes.extend(o.nontrivial_hashes);
         sigs.extend(o.signatures);
@@ -438,11 +481,12 @@ fn cmd_run(a: &Args) -> i32 {
     // ---- failure handling: minimise, write replay, verify replay in this process
     let mut violations = 0;
     let mut exit = 0;
-    let mut known_lines = Vec::new();
     let mut replay_path = String::new();
     let mut failure_json = J::Null;
     if let Some((run, trace, v, cfg)) = &failure {
-        let sh = shrink::shrink(trace, v.rule, 20_000);
+        let kn = known.clone();
+        let unknown = move |x: &Violation| !kn.iter().any(|k| k.matches(prop, x));
+        let sh = shrink::shrink(trace, v.rule, 20_000, &unknown);
         let (min, execs, v2) = match sh {
             Some(s) => {
                 let v2 = Violation { idx: s.idx, rule: v.rule, detail: s.detail.clone() };
@@ -450,30 +494,28 @@ fn cmd_run(a: &Args) -> i32 {
             }
             None => (trace.clone(), 0, v.clone()),
         };
-        let shp = shape(&min);
-        let is_known = known.iter().any(|(p, r, s)| p == prop && r == v.rule.id() && *s == shp);
-        if is_known {
-            known_lines.push(format!("KNOWN-FINDING: property={} rule={} shape=\"{}\" (run {} of seed {})", prop, v.rule.id(), shp, run, seed));
-        } else {
-            violations = 1;
-            exit = EXIT_VIOLATION;
-            let dir = a.get("replay-dir").unwrap_or("/verif/replays").to_string();
-            let dir = format!("{}/{}", dir, prop);
-            let _ = std::fs::create_dir_all(&dir);
-            replay_path = format!("{}/{}-{}-{}.json", dir, seed, run, v.rule.id());
-            let rj = replay_json(prop, seed, *run, &v2, &min, trace, cfg, execs, &profile);
-            if let Err(e) = std::fs::write(&replay_path, rj.pretty()) {
-                die(&format!("cannot write {}: {}", replay_path, e));
-            }
-            failure_json = J::obj().set("run_index", J::u(*run)).set("rule", J::s(v.rule.id())).set("event_index", J::us(v2.idx)).set("detail", J::s(&v2.detail)).set("replay", J::s(&replay_path)).set("minimised_events", J::us(min.events.len())).set("original_events", J::us(trace.events.len()));
-            println!("violated rule {} in run {} (seed {}): {}", v.rule.id(), run, seed, v2.detail);
-            println!("  {}", RULE_TEXT[v.rule as usize]);
-            println!("  minimised from {} to {} events in {} re-executions: {}", trace.events.len(), min.events.len(), execs, min.to_json().compact());
-            println!("VIOLATION property={} replay={}", prop, replay_path);
+        violations = 1;
+        exit = EXIT_VIOLATION;
+        let dir = a.get("replay-dir").unwrap_or("/verif/replays").to_string();
+        let dir = format!("{}/{}", dir, prop);
+        let _ = std::fs::create_dir_all(&dir);
+        replay_path = format!("{}/{}-{}-{}.json", dir, seed, run, v.rule.id());
+        let rj = replay_json(prop, seed, *run, &v2, &min, trace, cfg, execs, &profile);
+        if let Err(e) = std::fs::write(&replay_path, rj.pretty()) {
+            die(&format!("cannot write {}: {}", replay_path, e));
         }
+        failure_json = J::obj().set("run_index", J::u(*run)).set("rule", J::s(v.rule.id())).set("event_index", J::us(v2.idx)).set("detail", J::s(&v2.detail)).set("replay", J::s(&replay_path)).set("minimised_events", J::us(min.events.len())).set("original_events", J::us(trace.events.len()));
+        println!("violated rule {} in run {} (seed {}): {}", v.rule.id(), run, seed, v2.detail);
+        println!("  {}", RULE_TEXT[v.rule as usize]);
+        println!("  minimised from {} to {} events in {} re-executions: {}", trace.events.len(), min.events.len(), execs, min.to_json().compact());
+        println!("VIOLATION property={} replay={}", prop, replay_path);
     }
-    for l in known_lines.iter() {
-        println!("{}", l);
+    let _ = &replay_path;
+    // every listed finding of this property is announced, with how often this batch reproduced it
+    for (k, kn) in known.iter().enumerate() {
+        if kn.property == prop {
+            println!("KNOWN-FINDING: property={} rule={} {} (reproduced in {} runs of this batch)", prop, kn.rule, kn.what, known_hits[k]);
+        }
     }
 
     // ---- witness probe: the batch must have explored something relevant
